@@ -16,8 +16,12 @@ from common import Finding
 PID = "C09"
 LEVEL = "proof"
 ASSUMPTIONS = [
-    "invariant I4 (SUCCEEDED => outputs BUILT) is decided on whole simulated builds (C01/C05 checks), not on "
-    "kernel request sequences, because it holds per director transaction, not per kernel request",
+    "invariant I4 (SUCCEEDED => outputs BUILT) is a theorem over histories whose requests satisfy four side "
+    "conditions (no raw set_state(SUCCEEDED) with unbuilt outputs, completed-with-hash only without PLANNED own "
+    "outputs, no amend / reset_for_rerun of a SUCCEEDED step): what the executor and the handlers issue, read in "
+    "executor.py/director.py, not verified there; each excluded request has a kernel-checked counterexample that is "
+    "replayed on the real code (harness/witness/succ_outputs_*.txt); the oracle evaluates I4 on the real database "
+    "after define/completed/check_consistency/reset_interrupted and on whole simulated builds (C01/C05)",
     "requests are those the director's interface can deliver: creators are RUNNING steps, hash results are for "
     "states a hash job can meet; the malformed stream is checked for agreement with the model only",
 ]
